@@ -2,6 +2,7 @@
 package c20
 
 import (
+	"math"
 	"github.com/ucan-wg/go-ucan/pkg/meta"
 	"bytes"
 	"fmt"
@@ -735,11 +736,25 @@ func drawChain(t *rapid.T) (chain.Case, []val.KV) {
 			cs.Inv.Args = append(cs.Inv.Args, val.KV{K: k, V: val.Int(int64(len(k)))})
 		}
 	}
+	if rapid.IntRange(0, 2).Draw(t, "numberforms") == 1 {
+		// values whose wire form has more than one spelling in some codec - a float with an integral value (2.0, -0.0,
+		// 1e15), alone and nested - as arguments and as metadata: what the token holds is what it was given, before
+		// and after it has been encoded
+		for _, e := range []val.KV{{K: "ratio", V: val.Float(2)}, {K: "neg0", V: val.Float(math.Copysign(0, -1))}, {K: "big", V: val.Float(1e15)}, {K: "nestf", V: val.List(val.Float(3), val.Map(val.E("f", val.Float(4))))}} {
+			if !have[e.K] && rapid.Bool().Draw(t, "nf_"+e.K) {
+				cs.Inv.Args = append(cs.Inv.Args, e)
+				have[e.K] = true
+			}
+		}
+	}
 	nm := rapid.IntRange(0, 4).Draw(t, "nmeta")
 	cs.Inv.Meta = nil
 	mperm := rapid.Permutation([]string{"m0", "z", "b", "aa"}).Draw(t, "metaorder")
 	for _, k := range mperm[:nm] {
 		cs.Inv.Meta = append(cs.Inv.Meta, val.KV{K: k, V: val.Str("v" + k)})
+	}
+	if rapid.IntRange(0, 3).Draw(t, "metafloat") == 2 {
+		cs.Inv.Meta = append(cs.Inv.Meta, val.KV{K: "mf", V: val.Float(5)})
 	}
 	cs.Inv.TypedArg = rapid.IntRange(0, 5).Draw(t, "typedarg") == 3
 	if cs.Inv.TypedArg {
